@@ -22,7 +22,9 @@ CHECKS = {
             "(27-op alphabet, one- and two-sided) is executed on the real CloudSync over MockProviders; at every quiet "
             "state both trees must be equal modulo .conflicted files, and the fair schedule must reach a quiet state from "
             "every reachable state; a state that no step changes any more but in which the engine still reports pending work counts "
-            "as looping. Phased histories start the exploration from the end state of an earlier two-sided history. This is a "
+            "as looping. Phased histories start the exploration from the end state of an earlier two-sided history; a mid-step family "
+            "lets the user's operation land before the k-th provider call of the engine's own work (every k; first-ever start and "
+            "steady state). This is a "
             "coverage statement over schedules that the wall-clock driven tests cannot give.",
             NOTE_E1, "5/C01"),
     "C02": ("seqx", TECH_E1,
@@ -55,7 +57,7 @@ CHECKS = {
             "histories on a DictStorage) the engine is dropped, the users finish their scripts while it is down, and a new engine "
             "is started over the same storage in three modes (intact, cursor removed, cursor rejected); after quiescence: "
             "convergence, no loss, no new artefact, no spurious transfer (intact) / every created or modified object present on "
-            "both sides (cursor lost); case-only renames on case-insensitive flavours and first-ever starts (tree present before any engine ran) included; an engine that is quiet by state but still reports pending work counts as a failure. Judged only when the undisturbed run passes (differential gating).",
+            "both sides (cursor lost); case-only renames on case-insensitive flavours and first-ever starts (tree present before any engine ran) and stops that land inside an intake step (before the k-th event of the batch) included; an engine that is quiet by state but still reports pending work counts as a failure. Judged only when the undisturbed run passes (differential gating).",
             NOTE_E1, "5/C06"),
     "C07": ("seqx", "exhaustive crash-point enumeration (every storage write, every engine provider write) on explored executions",
             "Within every base execution each storage create/update/delete is taken as a crash instant (die before it) and each "
@@ -66,12 +68,13 @@ CHECKS = {
     "C10": ("seqx", "exhaustive fault-placement enumeration (every engine API call x 4 error kinds, before/after effect)",
             "Every provider API call the engine makes in a base execution is failed once with a temporary, disconnected, token or "
             "out-of-space error before its effect, every mutating call also right after its effect; plus permanent per-path "
-            "failures lifted after 0..8 rounds. Afterwards the run must go quiet, converge without loss and have raised the "
+            "failures lifted after 0..8 rounds; pairs of faults on the intake path (events() and one of the next six calls) and faults "
+            "during conflict resolution with an application resolver. Afterwards the run must go quiet, converge without loss and have raised the "
             "matching notification.", NOTE_E1, "5/C10"),
     "C08": ("seqx+enumx", TECH_E1 + " with a persistence monitor; " + TECH_E4 + " for the codec",
             "After every engine transition of every interleaving of the C01 history list (storage attached) the stored rows "
             "must equal the live entries byte for byte, with no stale row and an empty dirty set, and a SyncState reloaded "
-            "from a copy of the storage must have the same entries, pending set and id/path lookups. The codec is enumerated "
+            "from a copy of the storage must have the same entries, pending set and id/path lookups; the per-tag data rows (cursor, walk marker) behave like one value per tag for every sequence of get/update/delete/forget by two states over one store up to depth 5 (6). The codec is enumerated "
             "over every combination of hash shape, path, id, existence, ignore reason and stamp values, plus legacy rows.",
             NOTE_E1, "5/C08"),
     "C09": ("apix", TECH_E2,
@@ -110,7 +113,8 @@ CHECKS = {
     "C15": ("thrx+seqx", TECH_E3 + "; lock-ownership monitor on explored engine executions",
             "(a) Every call of a SyncState mutation entry point made while state.lock is not owned by the calling thread is "
             "recorded with its call site, over a deviation-bounded engine exploration and over every public entry point an "
-            "application thread may call, and state.lock must stay the same object throughout; (b) the real CloudSync with its sync loop, two event loops and an application thread "
+            "application thread may call (a query action - change_count in every mode, busy - is enabled in every state of the "
+            "exploration), and state.lock must stay the same object throughout; (b) the real CloudSync with its sync loop, two event loops and an application thread "
             "runs under a controlled scheduler with cooperative locks, every schedule with <=1 (2 thorough) preemptions, followed "
             "by the convergence and index-integrity oracles.",
             "Trusted: scheduling points at lock and wait operations are sufficient given (a); single attribute/dict operations "
@@ -120,7 +124,7 @@ CHECKS = {
             "colliding names and four size classes on four mock flavours and the filesystem provider (plus depth 5/6 on a narrow "
             "alphabet with two >2 KiB contents differing only in the middle; hash-cache contents are part of the state), compared after every "
             "call with a reference tree: result class, info/exists/listdir/download agreement, id stability, hash law, event "
-            "report; plus identity-on-connect, single-use guard and watchdog event conversion.",
+            "report; plus identity-on-connect (also as a re-login on a connected provider), single-use guard and watchdog event conversion.",
             "Trusted: the reference tree in vmc/props/c16.py (contract as documented by test_provider.py); asynchronous inotify "
             "delivery and networked providers are out of reach offline.", "5/C16"),
     "C17": ("seqx", TECH_E1 + " with explicit time-advance actions (depth-bounded)",
@@ -132,7 +136,7 @@ CHECKS = {
             "order of 3-4 notifications for entries pending on both sides, and a starvation scenario.", NOTE_E1, "5/C17"),
     "C20": ("seqx", TECH_E1,
             "SmartCloudSync with application calls (request, un-request, list) as explorer actions next to user operations and "
-            "engine steps, every interleaving: no local file that is not local-origin, requested or predicate-matched after any "
+            "engine steps, every interleaving, with one, two or three registered auto-sync predicates: no local file that is not local-origin, requested or predicate-matched after any "
             "action; listing flags; at quiet states folders mirrored, local creations uploaded, requested files byte-equal, "
             "un-request keeps the remote copy with the newest bytes, also when the upload of the pending edit hits a transient error.", NOTE_E1, "5/C20"),
     "C18": ("thrx+enumx", TECH_E3 + " (line-level scheduling points in runnable.py/notification.py); " + TECH_E4 + " for the backoff law",
@@ -144,8 +148,8 @@ CHECKS = {
             "LongPollManager for every sequence of long_poll outcomes (events / none / raises / raises after the timeout).",
             "Trusted: the shims for threading/queue/time; line granularity (GIL-atomic attribute access).", "5/C18"),
     "C19": ("apix", TECH_E2,
-            "Every call sequence up to depth 3 (4 in thorough) over the cache API on colliding paths and ids, for both case "
-            "modes, is executed on the real HierarchicalCache; structural invariants (acyclic, parent links, id map == reachable "
+            "Every call sequence up to depth 3 (4 in thorough) over the cache API on colliding paths (three levels) and ids, for both case "
+            "modes, from the empty cache and from a populated one, is executed on the real HierarchicalCache; structural invariants (acyclic, parent links, id map == reachable "
             "id-bearing nodes, inverse views) and a one-step refinement check against a fact model after every call.",
             "Trusted: the fact model (what the cache may still claim) in vmc/props/c19.py; bounded depth and alphabet.",
             "5/C19"),
